@@ -9,7 +9,15 @@ Sections
   B  folds built from starts: validation batch sets are pairwise disjoint and cover all batches;
      training indices are exactly the complement
   C  equal-size folds: sizes sum to n and differ by at most one; round-robin dealing is class-balanced
-  D  the reorganised dataset: shape kept, every requested element in the requested fold (model `regroup`)
+  D  the reorganised dataset (model `regroup`): shape kept, every picked element exactly once, grouped by fold;
+     createCVIndexed / createCVSameSize at the element level
+  E  elements of the folds: validation ∪ training = everything, validation parts concatenate to the dataset
+  F  folds.validation(p) holds exactly the elements requested for fold p
+  G  every fold-construction function (createCVIID / FullyIndexed / SameSizeBalanced / Batch)
+
+Hypothesis `hz : optimalBatchSizes 0 bs = some []` ("the source returns no batch for zero elements") appears where a
+fold or class may be empty; it is false on the unrepaired source (finding F1) and true on the repaired one — the check
+reports which (`generated_optimalBatchSizes_at_zero` in the C03 evidence).
 -/
 import SharkVerif.Lemmas.BatchArith
 import SharkVerif.Lemmas.Dataset
